@@ -2,6 +2,7 @@ package rules
 
 import (
 	"fmt"
+	"go/token"
 	"strings"
 
 	"golang.org/x/tools/go/ssa"
@@ -64,11 +65,12 @@ func ruleC05R3(c *core.Ctx, rule string, allowed map[string]map[string]string) {
 func init() {
 	register(&Property{
 		ID:    "C05",
-		Rules: []string{"C05-R1", "C05-R2", "C05-R3"},
+		Rules: []string{"C05-R1", "C05-R2", "C05-R3", "C05-R4"},
 		Explain: "Decides that no source of run-to-run variation reaches output or the error result in repository code: " +
 			"C05-R1 every range over a map is collect-then-sort on a total key order or has a commutative body; " +
 			"C05-R2 comparators used for that sort are total on the map key (a sort on the value alone keeps map order among ties); " +
-			"C05-R3 time.Now/rand/pid/go/select occur only at the sites of a two-line allowed table.",
+			"C05-R3 time.Now/rand/pid/go/select occur only at the sites of a two-line allowed table; " +
+			"C05-R4 no package-level variable or map is written outside init functions (no state survives from one reporter or run to the next).",
 		NotDecided: "determinism of third-party code (text/template, encoding/csv, gcfg, urfave/cli are trusted), byte equality of two outputs",
 		Assumptions: []string{
 			"sort.Strings/sort.Sort/sort.Slice* are deterministic functions of their input sequence",
@@ -80,10 +82,173 @@ func init() {
 				c.Note("no range over a map in the tree (vacuous)")
 			}
 			ruleC05R3(c, "C05-R3", allowedClock)
+			ruleGlobalState(c, "C05-R4")
 		},
 		Canary: func(c *core.Ctx) {
 			RuleMapRanges(c, "C05-R1", nil)
 			ruleC05R3(c, "C05-R3", map[string]map[string]string{"canary/maprange.GoodC05R3_allowed": {"time.Now": "canary"}})
+			ruleGlobalState(c, "C05-R4")
 		},
 	})
+}
+
+// ruleGlobalState is C05-R4: repository code writes no package-level variable
+// after initialisation — state that survives from one use of a command (or one
+// reporter) to the next makes output depend on what ran before.
+func ruleGlobalState(c *core.Ctx, rule string) {
+	n, lazy := 0, 0
+	isGlobalPtr := func(v ssa.Value) (string, bool) {
+		for depth := 0; depth < 6; depth++ {
+			switch x := v.(type) {
+			case *ssa.Global:
+				return x.Name(), true
+			case *ssa.FieldAddr:
+				v = x.X
+			case *ssa.IndexAddr:
+				v = x.X
+			case *ssa.UnOp:
+				v = x.X
+			default:
+				return "", false
+			}
+		}
+		return "", false
+	}
+	for _, fn := range c.P.Funcs {
+		if fn.Name() == "init" || strings.HasPrefix(fn.Name(), "init#") {
+			continue
+		}
+		fname := core.FuncName(fn)
+		for _, b := range fn.Blocks {
+			for _, in := range b.Instrs {
+				switch in := in.(type) {
+				case *ssa.Store:
+					if g, ok := isGlobalPtr(in.Addr); ok {
+						if constDerived(in.Val, 0) {
+							// a lazily initialised constant (a template or pattern compiled once from literals)
+							c.Discharge(rule, fname, "global "+g, c.P.Pos(in.Pos()), "package-level variable "+g+" is assigned a value computed from constants only: the same on every use")
+							lazy++
+							continue
+						}
+						n++
+						c.Violate(rule, fname, "global "+g, c.P.Pos(in.Pos()), "package-level variable "+g+" is written while a command runs: what this run prints can depend on what an earlier reporter or run in the same process left there", nil)
+					}
+				case *ssa.MapUpdate:
+					if g, ok := isGlobalPtr(in.Map); ok {
+						n++
+						c.Violate(rule, fname, "global "+g, c.P.Pos(in.Pos()), "package-level map "+g+" is updated while a command runs (a cache or registry keyed by less than everything the value depends on makes output depend on earlier use)", nil)
+					}
+				}
+			}
+		}
+	}
+	if n == 0 {
+		c.Discharge(rule, "repository", "no-global-writes", "-", "no store to a package-level variable and no update of a package-level map outside init functions")
+	}
+}
+
+// constDerived: v is computed from compile-time constants only (through calls,
+// conversions and tuple extraction), so it is the same whenever it is computed.
+func constDerived(v ssa.Value, depth int) bool {
+	if depth > 10 {
+		return false
+	}
+	switch x := v.(type) {
+	case *ssa.Const, *ssa.Function:
+		return true
+	case *ssa.MakeInterface:
+		return constDerived(x.X, depth+1)
+	case *ssa.Convert:
+		return constDerived(x.X, depth+1)
+	case *ssa.ChangeType:
+		return constDerived(x.X, depth+1)
+	case *ssa.Extract:
+		return constDerived(x.Tuple, depth+1)
+	case *ssa.BinOp:
+		return constDerived(x.X, depth+1) && constDerived(x.Y, depth+1)
+	case *ssa.MakeClosure:
+		for _, b := range x.Bindings {
+			if !constDerived(b, depth+1) {
+				return false
+			}
+		}
+		return true
+	case *ssa.MakeMap:
+		// a map literal: every key and value put into it is constant-derived
+		for _, r := range *x.Referrers() {
+			switch r := r.(type) {
+			case *ssa.MapUpdate:
+				if r.Map == ssa.Value(x) && (!constDerived(r.Key, depth+1) || !constDerived(r.Value, depth+1)) {
+					return false
+				}
+			case *ssa.Store, *ssa.DebugRef:
+			default:
+				return false
+			}
+		}
+		return true
+	case *ssa.Alloc:
+		// a local cell (a captured variable, a composite literal): everything stored into it is constant-derived
+		for _, r := range *x.Referrers() {
+			switch r := r.(type) {
+			case *ssa.Store:
+				if r.Addr == ssa.Value(x) && !constDerived(r.Val, depth+1) {
+					return false
+				}
+			case *ssa.FieldAddr, *ssa.IndexAddr:
+				for _, rr := range *r.(ssa.Value).Referrers() {
+					if st, ok := rr.(*ssa.Store); ok && st.Addr == r.(ssa.Value) && !constDerived(st.Val, depth+1) {
+						return false
+					}
+				}
+			}
+		}
+		return true
+	case *ssa.UnOp:
+		if x.Op == token.MUL {
+			switch a := x.X.(type) {
+			case *ssa.Alloc:
+				return constDerived(a, depth+1)
+			case *ssa.FreeVar:
+				// a variable of the enclosing function: constant-derived when the cell bound to it is
+				fn := a.Parent()
+				if fn == nil || fn.Parent() == nil {
+					return false
+				}
+				idx := -1
+				for i, fv := range fn.FreeVars {
+					if fv == a {
+						idx = i
+					}
+				}
+				ok := false
+				for _, b := range fn.Parent().Blocks {
+					for _, in := range b.Instrs {
+						if mc, isMC := in.(*ssa.MakeClosure); isMC && mc.Fn == ssa.Value(fn) && idx >= 0 && idx < len(mc.Bindings) {
+							if !constDerived(mc.Bindings[idx], depth+1) {
+								return false
+							}
+							ok = true
+						}
+					}
+				}
+				return ok
+			}
+		}
+		return false
+	case *ssa.Call:
+		if x.Call.IsInvoke() || x.Call.StaticCallee() == nil {
+			return false
+		}
+		if mc, ok := x.Call.Value.(*ssa.MakeClosure); ok && !constDerived(mc, depth+1) {
+			return false
+		}
+		for _, a := range x.Call.Args {
+			if !constDerived(a, depth+1) {
+				return false
+			}
+		}
+		return true
+	}
+	return false
 }
